@@ -26,11 +26,16 @@ import (
 )
 
 func vfMakeHeader(height uint64) *header.ExtendedHeader {
-	return &header.ExtendedHeader{
+	h := &header.ExtendedHeader{
 		Commit:    &types.Commit{},
 		RawHeader: header.RawHeader{Height: int64(height)},
 		DAH:       &share.AxisRoots{RowRoots: make([][]byte, 0)},
 	}
+	// A stored header has been validated, so the DAH's lazily cached hash is already filled in.
+	// Without this, two workers logging the same shared header race inside celestia-app's
+	// DataAvailabilityHeader.Hash (a dependency's unsynchronised cache, not the DASer's state).
+	_ = h.DAH.Hash()
+	return h
 }
 
 // ---------------------------------------------------------------------------------------------
